@@ -490,9 +490,10 @@ class WasmSem:
         elif op == "local.set":
             v = stack.pop()
             assert v.size() == locs[ins.args[0].index].size()
-            locs[ins.args[0].index] = v
+            locs[ins.args[0].index] = z3.simplify(v)      # (term hygiene only: same value, smaller term)
         elif op == "local.tee":
             assert stack[-1].size() == locs[ins.args[0].index].size()
+            stack[-1] = z3.simplify(stack[-1])
             locs[ins.args[0].index] = stack[-1]
         elif op == "global.get":
             stack.append(self.globals[ins.args[0].index][2])
@@ -500,7 +501,7 @@ class WasmSem:
             g = self.globals[ins.args[0].index]
             v = stack.pop()
             assert v.size() == g[2].size()
-            g[2] = v
+            g[2] = z3.simplify(v)
         elif op == "memory.size":
             if self.mem is None:
                 raise Unsupported("memory.size without memory")
